@@ -3,6 +3,7 @@ package work
 import (
 	"bytes"
 	"fmt"
+	"math/rand/v2"
 	"os"
 	"path/filepath"
 	"reflect"
@@ -68,6 +69,7 @@ func roundTripCase(c *core.Ctx, idx int, mode int) {
 	rec.Count("types", 1)
 	rec.Count("cfg_"+tc.name, 1)
 	rv := c.RandFor(idx, "values")
+	var prev []byte
 	for j := 0; j < valuesPerType(c); j++ {
 		vg := &gen.VG{R: rv, C: tc.cfg, Budget: 250}
 		v := vg.Value(tc.typ, "")
@@ -76,6 +78,19 @@ func roundTripCase(c *core.Ctx, idx int, mode int) {
 		}
 		rec.Eval(1)
 		noteShape(c, tc, v)
+		if j > 0 && len(prev) > 1 {
+			// rejected decodes of damaged encodings of the previous value, on the instances the
+			// next round trips use: a decode that fails half-way must leave nothing behind
+			for k := 0; k < 2; k++ {
+				bad := damage(rv, prev)
+				for _, p := range []*plenc.Plenc{tc.p, sharedInst(tc)} {
+					junk := reflect.New(tc.typ)
+					if err, pn := unmarshal(p, bad, junk.Interface()); err != nil || pn != "" {
+						rec.Count("rejected_decodes_between_round_trips", 1)
+					}
+				}
+			}
+		}
 		data, err, pn := marshal(tc.p, nil, ptrTo(v))
 		if pn != "" {
 			rec.Violation("marshal-panic", fmt.Sprintf("Marshal panicked [%s]: %s\n  type %s\n  value %s", tc.name, pn, typeString(tc.typ), model.Show(v)), caseExtra(tc, v, nil))
@@ -104,6 +119,7 @@ func roundTripCase(c *core.Ctx, idx int, mode int) {
 				return
 			}
 		}
+		prev = data
 		if mode == modeC02 {
 			checkWire(c, tc, v, data)
 			continue
@@ -128,6 +144,21 @@ func roundTripCase(c *core.Ctx, idx int, mode int) {
 			return
 		}
 	}
+}
+
+// damage returns a copy of a valid encoding that is cut short, has one byte changed, or both
+func damage(r *rand.Rand, data []byte) []byte {
+	bad := append([]byte(nil), data...)
+	switch r.IntN(3) {
+	case 0:
+		bad = bad[:r.IntN(len(bad))]
+	case 1:
+		bad[r.IntN(len(bad))] ^= byte(1 << r.IntN(8))
+	default:
+		bad = bad[:1+r.IntN(len(bad))]
+		bad[len(bad)-1] |= 0x80
+	}
+	return bad
 }
 
 // checkWire compares Marshal's bytes with the model's
